@@ -1,0 +1,71 @@
+//go:build verif
+
+package internal
+
+import (
+	"sync"
+	"sync/atomic"
+	"time"
+)
+
+// Firing an EventTimer on demand (verification builds only). Nothing here is compiled into the default build and
+// nothing of event_timer.go is changed: the hook works on the unexported fields of an existing timer.
+//
+// Both ways run the timer's own function, the closure its owner passed to NewEventTimer:
+//   - VerifFire runs it on a goroutine of its own, once per call, so that several expiries can be outstanding;
+//   - VerifExpire makes the time.Timer itself expire now, so that the EventTimer's goroutine picks the expiry up from
+//     timer.C and runs the function exactly as it does after the armed duration has passed.
+// The function is wrapped once per timer with two counters (entered / returned), so that a harness can tell a callback
+// that is parked (entered, not returned) from one that has handed its event over or dropped it (returned).
+
+type verifFireCount struct{ entered, returned int64 }
+
+var (
+	verifFireMu     sync.Mutex
+	verifFireCounts = map[*EventTimer]*verifFireCount{}
+)
+
+// verifInstrument wraps t.f with the counters on first use. The EventTimer goroutine reads t.f only after it has
+// received an expiry from timer.C; callers instrument a timer while no expiry of it is due.
+func (t *EventTimer) verifInstrument() (*verifFireCount, func()) {
+	verifFireMu.Lock()
+	defer verifFireMu.Unlock()
+	if c, ok := verifFireCounts[t]; ok {
+		return c, t.f
+	}
+	c := &verifFireCount{}
+	orig := t.f
+	t.f = func() {
+		atomic.AddInt64(&c.entered, 1)
+		defer atomic.AddInt64(&c.returned, 1)
+		orig()
+	}
+	verifFireCounts[t] = c
+	return c, t.f
+}
+
+// VerifFire runs the timer's function on its own goroutine, as an expiry does.
+func (t *EventTimer) VerifFire() {
+	_, f := t.verifInstrument()
+	go f()
+}
+
+// VerifExpire lets the underlying time.Timer expire immediately (the hook of Reset is not called: nothing is armed).
+func (t *EventTimer) VerifExpire() {
+	t.verifInstrument()
+	t.timer.Reset(time.Duration(0))
+}
+
+// VerifFired reports how many runs of the timer's function have started and how many have returned since the timer
+// was first fired through VerifFire / VerifExpire (real expiries after that moment are counted as well).
+func (t *EventTimer) VerifFired() (entered, returned int64) {
+	c, _ := t.verifInstrument()
+	return atomic.LoadInt64(&c.entered), atomic.LoadInt64(&c.returned)
+}
+
+// VerifForget drops the bookkeeping of a timer that is no longer used.
+func (t *EventTimer) VerifForget() {
+	verifFireMu.Lock()
+	delete(verifFireCounts, t)
+	verifFireMu.Unlock()
+}
